@@ -122,14 +122,14 @@ CHECKS = {
              "Trusted: leb128, f64::from_le_bytes.",
     ),
     "C12": dict(
-        technique="Lean 4 proof (value-at-every-time is invariant under repetition removal; time tables commute with the timescale factor) + cross-format differential: one abstract design written as GHW and as VCD, both loaded by the real code and compared with the observation of the design's denotation; corpus VCD/FST pairs",
+        technique="Lean 4 proof (value-at-every-time is invariant under repetition removal; time tables commute with the timescale factor) + cross-format differential: one abstract design written as GHW, VCD and FST, all loaded by the real code and compared with the observation of the design's denotation; corpus VCD/FST pairs",
         text="Lean theorems C12_value_at_canon (for every change list with non-decreasing indices and every time index: the value shown is unchanged by the removal of immediate repetitions — formats differ in exactly this redundancy) and "
              "C12_timescale (strictPrefixMax commutes with multiplying all timestamps by the timescale factor: same table, same indices, for every factor and every timestamp sequence). The cross-format comparison is differential: "
-             "random designs are serialised by two independent writers (GHW: per-bit records, fs; VCD: text, 1 fs / 1 ps, shared id codes); the real loader's observation of each file (tree: names, nesting, order, widths; per variable the "
+             "random designs are serialised by three independent writers (GHW: per-bit records, fs; VCD: text, 1 fs / 1 ps, shared id codes; FST: blocks with frame / records, exponent -15 / -12, alias handles); the real loader's observation of each file (tree: names, nesting, order, widths; per variable the "
              "value at every time in fs) must equal the observation computed by the Lean specification from the design. All corpus VCD/FST pairs go through the same observation.",
         design_ref="DESIGN.md section 5 / C12",
-        note="There is no Lean model composing the three loaders; each loader is tied to its format by C01/C09 (VCD), C10 (FST) and C11 (GHW). FST has no writer in the sandbox (fst-reader is read-only, no vcd2fst), so generated waveforms cover "
-             "VCD x GHW and FST is covered by the corpus pairs only. Arrays of scalars / vectors are not expressible in VCD with the same tree and are left out of the generated pairs; the one corpus GHW/FST pair comes from two tools "
+        note="There is no Lean model composing the three loaders; each loader is tied to its format by C01/C09 (VCD), C10 (FST) and C11 (GHW). The FST side uses gen/fst_writer.py (written from fst-reader's block layout: plain value-change blocks, gzip hierarchy, raw / zlib streams; no LZ4 / FastLZ blocks, no dynamic-alias block kinds, no strings) "
+             "plus the corpus VCD/FST pairs produced by vcd2fst. Arrays of scalars / vectors are not expressible in VCD with the same tree and are left out of the generated pairs; the one corpus GHW/FST pair comes from two tools "
              "with different trees (packages, enums as strings) and is left to the repo's own test.",
     ),
     "C13": dict(
@@ -142,13 +142,15 @@ CHECKS = {
              "The composition slice ∘ load is differential, the per-value theorems are unbounded.",
     ),
     "C10": dict(
-        technique="Lean 4 proof (expand_entries = rewrite under the wider kind, writer entry = loader entry layout; case analysis over all kind triples and width residues) + exhaustive state-order differential + corpus VCD/FST pairs",
+        technique="Lean 4 proof (expand_entries = rewrite under the wider kind, writer entry = loader entry layout; case analysis over all kind triples and width residues) + exhaustive state-order differential + whole FST files written from abstract designs + corpus VCD/FST pairs",
         text="Lean theorems C10_expand_is_rewrite (an entry written under a narrower maximum, once widened, is byte for byte the entry written under the wider kind: order independence of 2/4/9-state values), "
              "C10_writer_uses_entry_layout, C10_writer_entry (entry round trip). The real SignalWriter (hook) is driven with every sequence of value kinds of length <= 4 at widths 1..24 and random histories "
              "(release and debug-assertion builds) against the Lean model and canon of the callback history; every corpus x.vcd / x.vcd.fst pair is loaded through both paths and compared variable by variable.",
         design_ref="DESIGN.md section 5 / C10",
-        note="The FST container (blocks, compression, hierarchy entries, time chain) is parsed by the fst-reader dependency: not modelled; covered only by the 33 corpus pairs (hierarchy names/widths, time table, values). "
-             "No FST files are generated (no writer was built), so hierarchy-entry kinds, aliases, enum tables and multi-block distribution are covered by corpus files only. convert_timescale is modelled but not in the quick run.",
+        note="The FST container (blocks, compression, hierarchy entries, time chain) is parsed by the fst-reader dependency: not modelled byte by byte. It is exercised with whole files written by gen/fst_writer.py "
+             "(hierarchy entries with kinds / directions / ranges / alias handles, 1..n plain value-change blocks, snapshot as frame or records, packed / ASCII / 1-bit records, raw / zlib streams, exponent -15 / -12): the real loader's full dump "
+             "must equal the Lean file-level model (callbacks -> SignalWriter model -> pointer-level builder) and the design's denotation; and with the 33 corpus pairs. Not generated: LZ4 / FastLZ streams, dynamic-alias block kinds, "
+             "variable-length strings, enum tables / source locators / VHDL type attributes (corpus only). convert_timescale is modelled; the generated files use exponents -15 and -12.",
     ),
     "C07": dict(
         technique="Lean 4 proof (refinement of the Waveform signal map to an abstract loaded-set by induction over operation sequences; load_signals = map over sorted distinct ids) + differential load/unload sequences",
